@@ -83,11 +83,18 @@ func (s *scte35) UpdateData() []byte {
 
 	// generate bytes for splice descriptors
 	descriptorBytes := make([]byte, 2)
-	// append descriptors that are not extracted
-	descriptorBytes = append(descriptorBytes, s.otherDescriptorBytes...)
-	// append segmentation descriptors
+	// append segmentation descriptors, with the descriptors that are not
+	// extracted at the positions where they were found
+	other := s.otherDescriptors
 	for i := range s.descriptors {
+		for len(other) > 0 && other[0].before <= i {
+			descriptorBytes = append(descriptorBytes, other[0].data...)
+			other = other[1:]
+		}
 		descriptorBytes = append(descriptorBytes, s.descriptors[i].Data()...)
+	}
+	for i := range other {
+		descriptorBytes = append(descriptorBytes, other[i].data...)
 	}
 	descriptorLoopLength := len(descriptorBytes) - 2
 	descriptorBytes[0] = byte(descriptorLoopLength >> 8)
